@@ -283,7 +283,7 @@ class AesSfKind(Kind):
                     yield self._case(rng, ns, name, klen, k, T=1 if klen == 16 else 2, words=w, guesses='default', which=0 if klen == 16 else 3)
                     k += 1
         # 2. every class x key size x words forms x guess subsets, 1..6 traces, non-square
-        reps = 6 if tier == 'quick' else 46
+        reps = 5 if tier == 'quick' else 46
         for rep in range(reps):
             for ns in ('encrypt', 'decrypt'):
                 for name in AES_CLASSES[ns]:
@@ -473,7 +473,7 @@ class DesSfKind(Kind):
     check_fn = 'des_sf_check'
     corr_fn = 'des_sf_corr'
     explain_fn = 'des_sf_expected'
-    shard = 6
+    shard = 12
     rule = ('every public class of scared.des.selection_functions.encrypt / decrypt x 8-byte DES keys (and 16/24-byte TDES keys: first / '
             'last pass) x words forms x guesses (default 64, subsets, permutations) x 1..6 traces, non-square shapes; inputs: the DES '
             'worked example, SP 800-67 TDES vector, zeros, 0xFF, random; non-trivial = the expected-key column of a selected word is among the guesses')
@@ -537,7 +537,7 @@ class DesSfKind(Kind):
                 yield self._case(rng, ns, name, 8, k, T=1, words={'form': 'none'}, guesses='default', which=0)
                 k += 1
         # 2. every class x words forms x guess subsets, 1..6 traces
-        reps = 8 if tier == 'quick' else 60
+        reps = 6 if tier == 'quick' else 60
         for rep in range(reps):
             for ns in ('encrypt', 'decrypt'):
                 for name in DES_NAMES:
